@@ -465,7 +465,7 @@ func checkC17(p *Prog, r *Report) {
 				bad++
 				rPass.Bad(fnName(from)+":order", posOf(i), "sources are converted concurrently")
 			}
-			if c := callCommon(i); nil != c && strings.HasPrefix(calleeName(c), "slices.Sort") {
+			if c := callCommon(i); nil != c && strings.HasPrefix(calleeName(c), "slices.Sort") && 0 != len(c.Args) && rootedInParams(c.Args[0], from) {
 				bad++
 				rPass.Bad(fnName(from)+":order", posOf(i), "the source list is re-ordered")
 			}
@@ -893,4 +893,15 @@ func isByteSlice(t types.Type) bool {
 	}
 	b, ok := sl.Elem().Underlying().(*types.Basic)
 	return ok && types.Byte == b.Kind()
+}
+
+// rootedInParams: v derives from a parameter of fn (not from something fn
+// made itself).
+func rootedInParams(v ssa.Value, fn *ssa.Function) bool {
+	for _, x := range valueRoots(v, nil) {
+		if pa, ok := x.V.(*ssa.Parameter); ok && "param" == x.Kind && pa.Parent() == fn {
+			return true
+		}
+	}
+	return false
 }
